@@ -10,6 +10,8 @@ pub mod strs {
     pub uninterp spec fn sp_split_once(s: Str, sep: char) -> Option<(Str, Str)>;
     pub uninterp spec fn sp_trim_start(s: Str) -> Str;      // trim_start_matches([' ', '\t'])
     pub uninterp spec fn sp_trim(s: Str) -> Str;            // trim()
+    pub uninterp spec fn sp_trim_start_ws(s: Str) -> Str;   // trim_start()
+    pub uninterp spec fn sp_trim_end_ws(s: Str) -> Str;     // trim_end()
     pub uninterp spec fn sp_find(s: Str, c: char) -> Option<usize>;
     pub uninterp spec fn sp_len(s: Str) -> usize;
     pub uninterp spec fn sp_slice(s: Str, a: usize, b: usize) -> Str;
@@ -30,6 +32,8 @@ pub mod strs {
         #[verifier::external_body] pub fn split_once(&self, sep: char) -> (r: Option<(Str, Str)>) ensures r == sp_split_once(*self, sep) { unimplemented!() }
         #[verifier::external_body] pub fn trim_start_matches(&self, pat: [char; 2]) -> (r: Str) requires pat[0] == ' ', pat[1] == '\t' ensures r == sp_trim_start(*self) { unimplemented!() }
         #[verifier::external_body] pub fn trim(&self) -> (r: Str) ensures r == sp_trim(*self) { unimplemented!() }
+        #[verifier::external_body] pub fn trim_start(&self) -> (r: Str) ensures r == sp_trim_start_ws(*self) { unimplemented!() }
+        #[verifier::external_body] pub fn trim_end(&self) -> (r: Str) ensures r == sp_trim_end_ws(*self) { unimplemented!() }
         #[verifier::external_body] pub fn find(&self, c: char) -> (r: Option<usize>) ensures r == sp_find(*self, c), r matches Some(h) ==> h < sp_len(*self) { unimplemented!() }
         #[verifier::external_body] pub fn len(&self) -> (r: usize) ensures r == sp_len(*self) { unimplemented!() }
         /// `&s[a..b]` (rule R19): the slicing panic conditions are preconditions.
